@@ -100,7 +100,7 @@ def beLoop (o : Ops α) (s : SolverCfg α) (p : BEParams α) (kc : Mat α) (atol
 /-- `BackwardEuler::Solve`; scratch `ynew` plays `Yn_`, `f0` plays `forcing_` -/
 def beSolve (o : Ops α) (s : SolverCfg α) (p : BEParams α) (kc : Mat α) (atol : Array α) (rtol : α)
     (timeStep : α) (Y : Mat α) (sc : Scratch α) (fuel : Nat) : SolveResult α :=
-  let h := if o.eq p.hstart 0 then timeStep else p.hstart
+  let h := if o.eq p.hstart 0 then timeStep else cmin o p.hstart timeStep   -- std::min(h_start_, time_step)
   let r0 : BEState α := { Yn1 := Y, Yn := Y, t := 0, h, nSucc := 0, nFail := 0, iterations := 0, stats := {},
                           status := .notYetCalled, done := false, sc, trace := [] }
   let r := beLoop o s p kc atol rtol timeStep fuel r0
